@@ -62,6 +62,13 @@ Theorem C02_macd_exact : forall p1 p2 p3 s xs, macd_new XROps p1 p2 p3 = Ok s ->
   macd_outs XROps s (map Fin xs) = map (map Fin) (macd_real (kreal p1) (kreal p2) (kreal p3) xs).
 Proof. exact macd_exact. Qed.
 
+Theorem C02_atr_exact : forall p a xs, atr_new XROps p = Ok a ->
+  atr_outs XROps a (map Fin xs) = map Fin (ema_stream (kreal p) (tr_stream xs)).
+Proof. exact atr_exact. Qed.
+Theorem C02_kc_exact : forall p m s xs, kc_new XROps p (Fin m) = Ok s ->
+  kc_outs XROps s (map Fin xs) = map (map Fin) (kc_real (kreal p) m xs).
+Proof. exact kc_exact. Qed.
+
 From Coq Require Import List Floats.
 From TA Require Import Generic FloatInst XQ Run2 Par.Hom Par.Var Par.Oracle.
 (* the T2 oracle (exact rational run, evaluated by the checks) is the image of the exact real run these
